@@ -87,6 +87,33 @@ def body_fwdrev_t():
     return _r(L["ag"].make_jvp(L["ag"].grad(lambda x: np.sum(np.sin(x) * x)))(L["onp"].array([0.3, 0.9]))(L["onp"].array([0.5, 4.0]))[1])
 
 
+# second-order differentiation through rules of the NumPy layer that build index / mask / scale arrays (sort, var, max, cumsum, getitem): a rule that
+# parks such an array in a shared scratch buffer between the inner and the outer pass is disturbed by another thread using the same rule
+def body_hess_sort():
+    L = lib()
+    np_, onp_ = L["np"], L["onp"]
+    w = onp_.array([1.0, 2.0, 3.0])
+    return _r(L["ag"].grad(lambda x: np_.sum(onp_.array([0.5, -1.0, 2.0]) * L["ag"].grad(lambda z: np_.sum(np_.sort(z) ** 2 * w))(x)))(onp_.array([0.9, 0.1, 0.5])))
+
+
+def body_grad_sort():
+    L = lib()
+    np_, onp_ = L["np"], L["onp"]
+    return _r(L["ag"].grad(lambda y: np_.sum(np_.sort(y) * onp_.array([3.0, 1.0, 2.0])))(onp_.array([0.2, 0.8, 0.4])))
+
+
+def body_hess_var():
+    L = lib()
+    np_, onp_ = L["np"], L["onp"]
+    return _r(L["ag"].grad(lambda x: np_.sum(onp_.array([0.5, -1.0, 2.0]) * L["ag"].grad(lambda z: 3.0 * np_.var(z) + np_.max(z) * np_.sum(np_.cumsum(z)))(x)))(onp_.array([0.9, 0.1, 0.5])))
+
+
+def body_grad_var():
+    L = lib()
+    np_, onp_ = L["np"], L["onp"]
+    return _r(L["ag"].grad(lambda y: 5.0 * np_.var(y) + np_.std(y) + np_.max(y) + np_.sum(np_.cumsum(y)[[0, 2]]))(onp_.array([0.2, 0.8, 0.4])))
+
+
 _SHARED = {}
 
 
@@ -124,7 +151,7 @@ def body_sharedvg_b():
     return _r(shared()["vg"](7.0, 3.0))
 
 
-BODIES = dict(fwd_t=body_fwd_t, fwdrev_t=body_fwdrev_t, jacobian2=body_jacobian2, hessian=body_hessian, shared_a=body_shared_a, shared_b=body_shared_b, sharedj_a=body_sharedj_a, sharedj_b=body_sharedj_b,
+BODIES = dict(hess_sort=body_hess_sort, grad_sort=body_grad_sort, hess_var=body_hess_var, grad_var=body_grad_var, fwd_t=body_fwd_t, fwdrev_t=body_fwdrev_t, jacobian2=body_jacobian2, hessian=body_hessian, shared_a=body_shared_a, shared_b=body_shared_b, sharedj_a=body_sharedj_a, sharedj_b=body_sharedj_b,
               sharedvg_a=body_sharedvg_a, sharedvg_b=body_sharedvg_b, simple=body_simple, nested=body_nested, closure=body_closure, fwdrev=body_fwdrev,
               jacobian=body_jacobian, depth3=body_depth3, fwd=body_fwd)
 ORDER = ["simple", "nested", "closure", "fwdrev", "fwd", "jacobian", "depth3"]
@@ -138,6 +165,7 @@ def combos(quick):
     out += [("closure", "jacobian"), ("nested", "depth3"), ("closure", "depth3")]
     out += [("shared_a", "shared_b"), ("sharedj_a", "sharedj_b"), ("sharedvg_a", "sharedvg_b"), ("shared_a", "sharedj_b")]
     out += [("jacobian", "jacobian2"), ("hessian", "jacobian2"), ("fwd", "fwdrev"), ("fwdrev_t", "fwd_t"), ("fwd_t", "fwd")]
+    out += [("hess_sort", "grad_sort"), ("hess_var", "grad_var")]
     if not quick:
         out += [("jacobian", "jacobian"), ("depth3", "depth3"), ("fwdrev", "depth3")]
     out = list(dict.fromkeys(out))
